@@ -365,8 +365,11 @@ func (runInfo *runInfoStruct) invokeMemberExpr(expr *ast.MemberExpr) {
 	case reflect.Struct:
 		field, found := runInfo.rv.Type().FieldByName(expr.Name)
 		if found {
-			runInfo.rv = runInfo.rv.FieldByIndex(field.Index)
-			return
+			// a value obtained through an unexported field cannot be handed to a script: no such member
+			if fieldValue := runInfo.rv.FieldByIndex(field.Index); fieldValue.CanInterface() {
+				runInfo.rv = fieldValue
+				return
+			}
 		}
 		if runInfo.rv.CanAddr() {
 			runInfo.rv = runInfo.rv.Addr()
